@@ -252,7 +252,7 @@ fn sample_json(case: &Case, prep: &Prepared, run: &exec::Run, facts: &Facts, see
         "plan_outcomes": case.plan.outcomes.values().map(|o| o.class.clone()).collect::<Vec<_>>(),
         "plan_faults": case.plan.faults.iter().map(|(k, f)| format!("spawn#{k}:{}", f.kind())).collect::<Vec<_>>(),
         "pipe_capacity": case.plan.pipe_capacity,
-        "scheduler": match spec { SchedSpec::Random { sticky_pct, .. } => format!("random sticky={sticky_pct}%"), SchedSpec::Pct { depth, .. } => format!("pct depth={depth}"), SchedSpec::Calm { .. } => "calm".into(), SchedSpec::Replay { .. } => "replay".into() },
+        "scheduler": match spec { SchedSpec::Random { sticky_pct, .. } => format!("random sticky={sticky_pct}%"), SchedSpec::Pct { depth, .. } => format!("pct depth={depth}"), SchedSpec::Calm { .. } => "calm".into(), SchedSpec::Replay { .. } => "replay".into(), SchedSpec::Priority { .. } => "static priorities".into() },
         "schedule_steps": run.result.trace.decisions.len(),
         "context_switches": run.result.trace.switches,
         "completion_order_as_problem_index": facts.completion,
@@ -283,6 +283,9 @@ pub fn replay_with_facts(r: &Replay, scratch: &mut Scratch, keep_log: bool) -> (
 
 #[derive(Serialize, Deserialize)]
 pub struct TryOut {
+    /// Number of simulated threads the execution had.
+    #[serde(default)]
+    pub tasks: u32,
     pub violations: Vec<Violation>,
     pub digest: String,
     pub decisions: Vec<u32>,
@@ -336,7 +339,7 @@ pub fn try_in_fresh_process(r: &Replay, scratch: &mut Scratch) -> TryOut {
     let _ = std::fs::remove_dir_all(&dir);
     match serde_json::from_slice::<TryOut>(&out) {
         Ok(t) => t,
-        Err(_) => TryOut { violations: vec![Violation { class: "abort".into(), detail: format!("re-execution ended with {status:?}") }], digest: String::new(), decisions: vec![], vs_calm: vec![], stdout: String::new(), verdict: None },
+        Err(_) => TryOut { violations: vec![Violation { class: "abort".into(), detail: format!("re-execution ended with {status:?}") }], digest: String::new(), decisions: vec![], vs_calm: vec![], stdout: String::new(), verdict: None, tasks: 0 },
     }
 }
 
@@ -376,8 +379,52 @@ pub fn minimise(mut r: Replay, scratch: &mut Scratch, budget_s: u64) -> Replay {
         c.sched = SchedSpec::Calm { overrides: vec![] };
         c.max_steps = FIRST_BOUND;
         if !try_keep!(c) {
-            // express the failing schedule as the decisions that deviate from the calm policy
-            if let SchedSpec::Replay { .. } = &r.sched {
+            // a static priority order over the simulated threads is the simplest schedule a concurrency bug can need
+            let base = try_in_fresh_process(&r, scratch);
+            let n_tasks = base.tasks.max(1);
+            let mut found_priority = false;
+            if n_tasks <= 40 {
+                let mut prng = Rng::new(mix2(r.seed, r.index ^ 0x9510));
+                for attempt in 0..60u32 {
+                    if out_of_time() {
+                        break;
+                    }
+                    let mut order: Vec<u32> = (0..n_tasks).collect();
+                    match attempt {
+                        0 => order.reverse(),
+                        1 => order.rotate_left(1),
+                        _ => {
+                            for k in (1..order.len()).rev() {
+                                let j = prng.below(k as u64 + 1) as usize;
+                                order.swap(k, j);
+                            }
+                        }
+                    }
+                    let mut c = r.clone();
+                    c.sched = SchedSpec::Priority { order: order.clone() };
+                    c.max_steps = FIRST_BOUND;
+                    if try_keep!(c) {
+                        found_priority = true;
+                        // shorten the list while it still fails
+                        let mut cur = order;
+                        let mut i = cur.len();
+                        while i > 0 && !out_of_time() {
+                            i -= 1;
+                            let mut cand = cur.clone();
+                            cand.remove(i);
+                            let mut c = r.clone();
+                            c.sched = SchedSpec::Priority { order: cand.clone() };
+                            if try_keep!(c) {
+                                cur = cand;
+                            }
+                        }
+                        break;
+                    }
+                }
+            }
+            // otherwise express the failing schedule as the decisions that deviate from the calm policy
+            if found_priority {
+            } else if let SchedSpec::Replay { .. } = &r.sched {
                 let overrides: Vec<(u32, u32)> = try_in_fresh_process(&r, scratch).vs_calm;
                 let mut c = r.clone();
                 c.sched = SchedSpec::Calm { overrides: overrides.clone() };
@@ -501,7 +548,7 @@ pub fn minimise(mut r: Replay, scratch: &mut Scratch, budget_s: u64) -> Replay {
         r.violation = v;
         r.digest = digest;
         // a calm schedule (with its few deviations) is the more readable replay; pin the full decision list otherwise
-        if !matches!(r.sched, SchedSpec::Calm { .. }) {
+        if !matches!(r.sched, SchedSpec::Calm { .. } | SchedSpec::Priority { .. }) {
             let mut pinned = r.clone();
             pinned.sched = SchedSpec::Replay { decisions };
             let (vs2, d2, _) = replay_in_fresh_process(&pinned, scratch);
@@ -518,6 +565,7 @@ impl Replay {
     fn sched_note(&mut self) {
         let s = match &self.sched {
             SchedSpec::Calm { overrides } if overrides.is_empty() => "schedule-independent: fails under the calm schedule".to_string(),
+            SchedSpec::Priority { order } => format!("fails under static thread priorities {order:?} (always run the first runnable thread of this list; 0 = main, then pool workers and provers in creation order)"),
             SchedSpec::Calm { overrides } => format!("needs {} scheduling decision(s) that deviate from the calm schedule (step, task): {:?}{}", overrides.len(), &overrides[..overrides.len().min(12)], if overrides.len() > 12 { " ..." } else { "" }),
             _ => "original random schedule kept".to_string(),
         };
